@@ -134,6 +134,9 @@ func (s *Session) prog(mod string) (*Prog, error) {
 				return nil
 			}
 		}
+		if mod != "" {
+			// the mirror keeps sub-module files under contracts/<mod>/
+		}
 		if os.Getenv("VERIF_NO_MIRROR") != "" {
 			return nil
 		}
